@@ -525,6 +525,27 @@ def gen_detfan(rnd):
     return {"family": "det", "steps": steps, "timeout": None, "externals": [], "meta": {"k": k, "nw": nw, "lats": lats, "fanout": True}}
 
 
+def gen_detwait(rnd):
+    """deterministic human-in-the-loop run: one step waits for an answer whose requirements carry the item's key and (often) a value
+    that is not plain JSON (a UUID).  The answer is given once, 1 s after the question was published -- or, when the run was paused
+    while waiting, 1 s after the resume (the check sends it): the result must be the same either way."""
+    opaque = rnd.random() < 0.6
+    req = {"key": "{v}"}
+    if opaque:
+        req["tok"] = {"$uuid": 7}
+    wait = {"k": "wait", "type": "Answer", "req": req, "wid": "w-{uid}", "ask": "Ask"}
+    steps = [
+        {"name": "start", "in": ["Go"], "nw": 1, "acts": [{"k": "sleep", "d": rnd.choice([0, 0.5])}, {"k": "ret", "type": "EvA"}]},
+        {"name": "ask", "in": ["EvA"], "nw": 1, "acts": [{"k": "sleep", "d": rnd.choice([0, 0.5])}, wait, {"k": "state", "op": "set", "key": "answered", "val": "yes"}, {"k": "ret", "type": "EvB", "v_const": "answered"}]},
+        {"name": "fin", "in": ["EvB"], "nw": 1, "acts": [{"k": "sleep", "d": rnd.choice([0, 1])}, {"k": "ret", "type": "StopEvent", "result": "const"}]},
+    ]
+    pay = {"key": "{v}"}
+    if opaque:
+        pay["tok"] = {"$uuid": 7}
+    return {"family": "det", "steps": steps, "timeout": None, "externals": [], "responders": [{"on": "Ask", "replies": [{"delay": 1.0, "type": "Answer", "pay": pay}]}],
+            "meta": {"hitl": True, "opaque_req": opaque, "answer_on_resume": True}}
+
+
 def gen_detsend(rnd):
     """like detfan, but the fan-out is done the usual way: ONE step calls ctx.send_event k times and returns.  Re-executing that step
     would send everything again (at-least-once), so only pauses taken AFTER it completed are decided (the check skips the others):
